@@ -131,6 +131,30 @@ def make_after_broadcast(frontend, framing):
     return after_broadcast
 
 
+def make_nodata(frontend, framing, fc):
+    """a request that consists of the function code alone (FC 7, 11, 12, 17): exactly one response frame with the
+    request's ids and function code (its content comes from device counters and is not compared)"""
+    def nodata(t: bytes, u: int) -> bool:
+        assume(len(t) == 2)
+        assume(1 <= u <= 247)
+        slave = SL.small_context()
+        ctx = SL.server_context(slave, single=True)
+        r = SL.drive(frontend, framing, ctx, [adu.ref_adu(framing, bytes([fc]), u, t)])
+        if r.escaped is not None or r.twisted_dropped is not None:
+            return False
+        if len(r.written) != 1:
+            explain("%d frames written for one request with function code %d", len(r.written), fc)
+            return False
+        w = r.written[0]
+        if framing == "tcp":
+            n = len(w) - 6
+            return w[0:2] == t and w[2] == 0 and w[3] == 0 and w[4] * 256 + w[5] == n and w[6] == u and w[7] == fc
+        if framing == "rtu":
+            return w[0] == u and w[1] == fc
+        return True
+    return nodata
+
+
 class _Failing(object):
     """a datastore whose every access raises"""
     zero_mode = True
@@ -201,6 +225,9 @@ def obligations(tier):
         if fe in ("sync-tcp", "sync-serial", "asyncio-tcp"):
             out.append(Obl("after-broadcast.%s.%s" % (fe, fr), make_after_broadcast(fe, fr), timeout=T, contracts=CONTRACTS[fr], lemmas=LEMMAS[fr],
                            bounds="%s front-end with broadcast_enable: a unit-0 write then an FC3 request to the hosted unit on the same connection (two reads); contents symbolic" % fe))
+        for nfc in ((7, 17) if tier == "quick" else (7, 11, 12, 17)):
+            out.append(Obl("nodata.%s.%s.fc%d" % (fe, fr, nfc), make_nodata(fe, fr, nfc), timeout=T, contracts=CONTRACTS[fr], lemmas=LEMMAS[fr],
+                           bounds="%s front-end, %s framing: a request that is the bare function code %d; tid and unit symbolic" % (fe, fr, nfc)))
         out.append(Obl("fail.%s.%s" % (fe, fr), make_fail(fe, fr), timeout=T, contracts=CONTRACTS[fr], lemmas=LEMMAS[fr],
                        bounds="%s front-end: FC3 request against a datastore whose every access raises -> exception 04" % fe))
     return out
